@@ -9,5 +9,5 @@ for f in glob.glob('/verif/evidence/replays/%s/*.json' % pid):
 for k, ds in groups.items():
     print('==', k, len(ds))
     for d in ds[: int(sys.argv[2]) if len(sys.argv) > 2 else 2]:
-        print('   case  :', json.dumps(d['case'], ensure_ascii=False)[:400])
-        print('   detail:', json.dumps(d['detail'], ensure_ascii=False)[:700])
+        print('   case  :', json.dumps(d['case'], ensure_ascii=False)[:int(sys.argv[3]) if len(sys.argv)>3 else 220])
+        print('   detail:', json.dumps(d['detail'], ensure_ascii=False)[:int(sys.argv[3]) if len(sys.argv)>3 else 260])
